@@ -571,6 +571,15 @@ def check_export(ops, MG, T, G, np_, ref, refgeo, dat, geo, shape, res, st):
     index = dict((n, k - natm) for k, n in enumerate(names))
     g = ref.grid
     def interior(blk): return ops.and_(blk.volume > 0, blk.volume < A)
+    def partition(tag, types):
+        for n in names:
+            blk = g.block[n]
+            cnt = [sum(1 for c in t['cells'] if c == index[n]) for t in types]
+            own = [rt.name for rt in g.rocktypelist].index(blk.rocktype.name)
+            inn = interior(blk)
+            st.ob(ops.or_(ops.not_(inn), sum(cnt) == 1 and cnt[own] == 1),
+                  '%s/partition: non-boundary block %r (cell %d) is in exactly one cell list, that of its rock type (counts %r)' % (tag, n, index[n], cnt))
+            st.ob(ops.or_(inn, sum(cnt) == 0), '%s/partition: boundary block %r is in no cell list (counts %r)' % (tag, n, cnt))
     for part, (status, val) in res.items():
         tag = 'export/' + part
         if status == 'raised' and not refusal(val):
@@ -585,14 +594,7 @@ def check_export(ops, MG, T, G, np_, ref, refgeo, dat, geo, shape, res, st):
                     st.ob(t[key] == getattr(rt, f), '%s/properties: rock %d %s is the rock type\'s' % (tag, ti, key))
                 dry = rt.dry_conductivity
                 st.ob(t['dry_conductivity'] == ops.ite(dry > 0, dry, rt.conductivity), '%s/properties: rock %d dry conductivity (wet one when not given)' % (tag, ti))
-            for n in names:
-                blk = g.block[n]
-                cnt = [sum(1 for c in t['cells'] if c == index[n]) for t in types]
-                own = [rt.name for rt in g.rocktypelist].index(blk.rocktype.name)
-                inn = interior(blk)
-                st.ob(ops.or_(ops.not_(inn), sum(cnt) == 1 and cnt[own] == 1),
-                      '%s/partition: non-boundary block %r (cell %d) is in exactly one cell list, that of its rock type (counts %r)' % (tag, n, index[n], cnt))
-                st.ob(ops.or_(inn, sum(cnt) == 0), '%s/partition: boundary block %r is in no cell list (counts %r)' % (tag, n, cnt))
+            partition(tag, types)
             st.ob(all(isinstance(c, int) and any(c == index[n] for n in names) for t in types for c in t['cells']), '%s/partition: every listed cell is a block index' % tag)
         elif part == 'boundaries':
             if status == 'raised': st.ob(False, '%s/refused: %s' % (tag, exc_text(val))); continue
@@ -658,8 +660,12 @@ def check_export(ops, MG, T, G, np_, ref, refgeo, dat, geo, shape, res, st):
             check_sources(ops, st, tag, ref, val, names, index)
             cases = expected_eos(ops, ref, ref._c20_eos_arg)
             st.ob(ops.or_(*[c for c, v in cases if v == val['eos']['name'] or v is ANY]), '%s/eos: the EOS %r is the one the model designates' % (tag, val['eos']['name']))
-            cells = sorted(c for t in val['rock']['types'] for c in t['cells'])
-            st.ob(cells == sorted(index[n] for n in names if index[n] >= 0), '%s/partition: every underground block in exactly one rock cell list' % tag)
+            if shape.get('volumes') == 'sym':
+                # the whole export uses ONE boundary threshold (the atmos_volume it was given) for rocks and boundaries
+                partition(tag, val['rock']['types'])
+            else:
+                cells = sorted(c for t in val['rock']['types'] for c in t['cells'])
+                st.ob(cells == sorted(index[n] for n in names if index[n] >= 0), '%s/partition: every underground block in exactly one rock cell list' % tag)
 
 
 UNSUPPORTED_GEN = ['CO2 ', 'FEED', 'HLOS', 'MAKE', 'POWR', 'TOST', 'VOL.', 'WBRE', 'WFLO', 'XIN2']
